@@ -1982,7 +1982,8 @@ def mnemo_from_att(prefix, name, args, asm_format):
                 and len(args) == 2:
             # Be liberal in what we accept, because old clang has bugs
             if args[1][x86_afs.ad] != False: args.reverse()
-        if name[:-1] in att_mnemo_table[table]:
+        if name[:-1] in att_mnemo_table[table] \
+                and name[-1] in att_mnemo_table[table][0]:
             size = att_mnemo_table[table][0][name[-1]]
             mnemo_from_att_set_size(size, args)
             if name[:-1] == 'push' and len(args) == 1 and is_imm(args[0]) and size == x86_afs.u16:
@@ -1992,7 +1993,9 @@ def mnemo_from_att(prefix, name, args, asm_format):
         mnemo_from_att_set_size(x86_afs.f64, args)
         return prefix, name[:-2]
     # TODO: 'suffix_one_ptr' without suffix => detection of size from register
-    elif name.startswith('movs') or name.startswith('movz'):
+    elif (name.startswith('movs') or name.startswith('movz')) \
+            and len(name) == 6 \
+            and name[-2] in att_mnemo_table['suffix_one_ptr'][0]:
         size = att_mnemo_table['suffix_one_ptr'][0][name[-2]]
         mnemo_from_att_set_size(size, args)
         return prefix, name[:4]+'x'
